@@ -199,7 +199,7 @@ static void runCase(uint64_t caseId, Rng rng, size_t nsteps, unsigned mode, std:
 		  << " nodes=" << !c->getClockedNodes().empty() << '\n';
 	}
 	for (auto &[c, cfg] : derivedCfgs) {
-		o << "ccfg " << c->getId() << " name=" << (cfg.name ? *cfg.name : std::string("~")) << " rname=" << (cfg.resetName ? *cfg.resetName : std::string("~"))
+		o << "ccfg " << c->getId() << " mul=" << (cfg.frequencyMultiplier ? rat(*cfg.frequencyMultiplier) : std::string("~")) << " name=" << (cfg.name ? *cfg.name : std::string("~")) << " rname=" << (cfg.resetName ? *cfg.resetName : std::string("~"))
 		  << " trig=" << (cfg.triggerEvent ? std::string(1, trigNames[(int) *cfg.triggerEvent]) : std::string("~"))
 		  << " psync=" << (cfg.phaseSynchronousWithParent ? std::string(*cfg.phaseSynchronousWithParent ? "1" : "0") : std::string("~"))
 		  << " rst=" << (cfg.resetType ? std::string(1, "SAN"[(int) *cfg.resetType]) : std::string("~"))
